@@ -1089,6 +1089,8 @@ impl Vm {
                 .expect("Expected ExcHandler.");
             (handler.finally_ip, handler.init_stack_size)
         };
+        // Variables of the try block that closures captured keep their values.
+        self.active_fiber_mut().close_upvalues(init_stack_size);
         self.active_fiber_mut().stack.truncate(init_stack_size);
         self.ip = new_ip;
     }
